@@ -392,9 +392,11 @@ func (fi *FuncInfo) Visit(node ast.Node) ast.Visitor {
 				ast.Walk(fi, n.Body)
 			}
 		}
+		fi.leave()
 		return nil
 	case *ast.FuncLit:
 		// Analyze the function literal in its own context.
+		fi.leave()
 		return fi.pkgInfo.newFuncInfo(n, nil, fi.typeArgs, fi.resolver)
 	case *ast.BranchStmt:
 		switch n.Tok {
@@ -496,6 +498,7 @@ func (fi *FuncInfo) Visit(node ast.Node) ast.Visitor {
 		for _, s := range n.Body {
 			ast.Walk(fi, s)
 		}
+		fi.leave()
 		return nil // The subtree was manually checked, no need to visit it again.
 	case *ast.GoStmt:
 		// Unlike a regular call, the function in a go statement doesn't block the
@@ -505,6 +508,7 @@ func (fi *FuncInfo) Visit(node ast.Node) ast.Visitor {
 		for _, arg := range n.Call.Args {
 			ast.Walk(fi, arg)
 		}
+		fi.leave()
 		return nil // The subtree was manually checked, no need to visit it again.
 	case *ast.DeferStmt:
 		fi.HasDefer = true
@@ -521,6 +525,16 @@ func (fi *FuncInfo) Visit(node ast.Node) ast.Visitor {
 	// Deliberately no return here to make sure that each of the cases above is
 	// self-sufficient and explicitly decides in which context the its AST subtree
 	// needs to be analyzed.
+}
+
+// leave takes the node that Visit has just pushed off the visitor stack again.
+// ast.Walk reports the end of a node (Visit(nil)) only to the visitor that Visit
+// returned for it, so every case that returns nil or a different visitor has to
+// call leave; otherwise all later nodes of the function are recorded under a
+// stale path (for example, a continue statement after a function literal in a
+// nested loop was attributed to the loop that had already been left).
+func (fi *FuncInfo) leave() {
+	fi.visitorStack = fi.visitorStack[:len(fi.visitorStack)-1]
 }
 
 func (fi *FuncInfo) visitCallExpr(n *ast.CallExpr, deferredCall bool) ast.Visitor {
@@ -558,6 +572,7 @@ func (fi *FuncInfo) visitCallExpr(n *ast.CallExpr, deferredCall bool) ast.Visito
 		if deferredCall {
 			fi.deferStmts = append(fi.deferStmts, newLitDefer(f, fi.typeArgs))
 		}
+		fi.leave()
 		return nil // No need to walk under this CallExpr, we already did it manually.
 	case *ast.IndexExpr:
 		// Collect info about the instantiated type or function, or index expression.
